@@ -433,7 +433,7 @@ func (fr *frame) execUnOp(x *ssa.UnOp, st *State, reach string) {
 		if !fr.pure {
 			if _, fromHeap := x.X.(*ssa.Alloc); !fromHeap {
 				if lk := lockInside(x.Type(), 0); lk != "" {
-					u.oblige(fr.obName("lock-copy", fr.describe(x.X, 0)), "lock", []string{"C20"}, reach, "false", fr.pos(x.Pos()),
+					u.oblige(fr.obName("lock-copy", fr.describe(x.X, 0)), "lock", []string{"C19", "C20"}, reach, "false", fr.pos(x.Pos()),
 						"a value carrying "+lk+" is copied: locks taken on the copy exclude nobody who locks the original")
 				}
 			}
